@@ -28,6 +28,7 @@ func (in *inliner) normalizeCallShapes(pkgs []*packages.Package, excluded func(s
 			}
 			n := &normCtx{in: in, pkg: pk, file: f}
 			eachList(f, n.goOfNew)
+			eachList(f, n.splitShortCircuit)
 			eachList(f, n.hoistFirstCall)
 		}
 	}
@@ -274,4 +275,62 @@ func (n *normCtx) hoistFirstCall(s ast.Stmt) []ast.Stmt {
 	n.in.dirty[n.file] = true
 	n.in.res.Normalized = append(n.in.res.Normalized, fmt.Sprintf("nested call of a new function at %s computed into a variable first", n.in.fset.Position(pos)))
 	return []ast.Stmt{def, s}
+}
+
+// splitShortCircuit: `if X || Y { .. }` (or &&) whose right operand calls a
+// new function is written as the evaluation it stands for,
+//
+//	c := X; if !c { c = Y }; if c { .. }
+//
+// so that the call in Y stands in a simple statement (and is inlined like any
+// other); the branch structure is the one the compiler builds for || anyway.
+func (n *normCtx) splitShortCircuit(s ast.Stmt) []ast.Stmt {
+	keep := []ast.Stmt{s}
+	ifs, ok := s.(*ast.IfStmt)
+	if !ok || ifs.Init != nil {
+		return keep
+	}
+	cond := ifs.Cond
+	for {
+		p, ok := cond.(*ast.ParenExpr)
+		if !ok {
+			break
+		}
+		cond = p.X
+	}
+	be, ok := cond.(*ast.BinaryExpr)
+	if !ok || (be.Op != token.LAND && be.Op != token.LOR) {
+		return keep
+	}
+	hasNew := false
+	ast.Inspect(be.Y, func(m ast.Node) bool {
+		switch x := m.(type) {
+		case *ast.FuncLit:
+			return false
+		case *ast.CallExpr:
+			if n.isNewCallee(x) {
+				hasNew = true
+			}
+		}
+		return !hasNew
+	})
+	if !hasNew {
+		return keep
+	}
+	pos := ifs.Pos()
+	n.in.nfresh++
+	name := fmt.Sprintf("inlC%d_", n.in.nfresh)
+	id := func() *ast.Ident { return &ast.Ident{NamePos: pos, Name: name} }
+	def := &ast.AssignStmt{Lhs: []ast.Expr{id()}, TokPos: pos, Tok: token.DEFINE, Rhs: []ast.Expr{be.X}}
+	var test ast.Expr = id()
+	if be.Op == token.LOR {
+		test = &ast.UnaryExpr{OpPos: pos, Op: token.NOT, X: id()}
+	}
+	second := &ast.IfStmt{If: pos, Cond: test, Body: &ast.BlockStmt{Lbrace: pos, List: []ast.Stmt{
+		&ast.AssignStmt{Lhs: []ast.Expr{id()}, TokPos: pos, Tok: token.ASSIGN, Rhs: []ast.Expr{be.Y}},
+	}, Rbrace: pos}}
+	ifs.Cond = id()
+	n.in.dirty[n.file] = true
+	n.in.res.Normalized = append(n.in.res.Normalized, fmt.Sprintf("short-circuit condition at %s written as its evaluation", n.in.fset.Position(pos)))
+	return []ast.Stmt{def, second, s}
 }
